@@ -481,7 +481,10 @@ class Ctx:
             for a in self.assumes + self.pc:
                 o.add(a)
             h = o.minimize(e)
-            if o.check() != z3.sat:
+            ro = o.check()
+            if ro == z3.unknown:
+                raise Unsupported('cannot bound %s for concretisation (solver returned unknown)' % e)
+            if ro != z3.sat:
                 raise PathAbort()
             lov = o.lower(h)
             if not (z3.is_int_value(lov) or (z3.is_rational_value(lov) and lov.denominator_as_long() == 1)):
@@ -763,6 +766,13 @@ class SV:
         return SV(z3.If(self.e >= 0, self.e, -self.e))
 
     def __hash__(self):
+        e = z3.simplify(self.e)
+        if z3.is_int_value(e) or z3.is_rational_value(e):
+            return hash(float(SV(e)))
+        if e.sort() != I:
+            # a symbolic real as a set element / dict key: its hash would have to agree with every number it may be equal
+            # to; not modelled (and enumerating its values does not terminate)
+            raise Unsupported('hash of a symbolic real (set element or dictionary key)')
         return hash(cur().concretize(self))
 
     def __index__(self):
